@@ -19,6 +19,23 @@ SUM = {
  "C15-1": ("C15", "quota refund in the PUBACK/PUBCOMP arms moved inside the awaiting_ack lookup", "a QoS 2 publish dropped before its PUBREC: the context finishes the exchange itself, the PUBCOMP finds no awaiting_ack entry and the slot leaks"),
  "C16-1": ("C16", "ReadPacketData returns Pending (instead of re-polling the reader) when the packet is not complete yet", "a read that leaves >= 2 bytes but less than the whole packet buffered, under an executor that polls only woken tasks"),
  "C17-1": ("C17", "retrasmit_queue entries removed with swap_remove_back: re-send order no longer the original order", ">= 3 entries queued, one acknowledged that has >= 2 younger unacknowledged ones, connection lost, session resumed"),
+ "C01-2": ("C01", "TxPacketStream::write replaced by a hand-written poll loop whose position variable resets on every poll", "within one packet: a partial poll_write acceptance followed by Pending (the accepted prefix is written again)"),
+ "C02-2": ("C02", "UserProperties::get returns only the first contiguous run of pairs with the key", "received user properties repeating a key with a different key in between (a=1, b=2, a=3) read with get(\"a\")"),
+ "C03-2": ("C03", "after a packet is cut off the buffer, leftover bytes are parsed only when more than 2 remain (> instead of >=)", "a read ending exactly after a complete 2-byte packet (PINGRESP, DISCONNECT e0 00) that follows another packet in the same read, with nothing (or EOF) after it"),
+ "C04-2": ("C04", "run() skips a packet that fails with UnexpectedProperty via `continue`, jumping over the re-arming of the inbound future", "a well-formed packet with a valid but misplaced property while run() is serving: nothing is read from the transport any more, run() never returns"),
+ "C05-2": ("C05", "tx_action_id shifts the packet identifier as u16 before widening (high byte lost)", "a QoS 1/2 publish with packet identifier >= 256: its acknowledgement matches no entry and the future never completes"),
+ "C06-2": ("C06", "the PUBREL identifier is taken from the handle's shared counter instead of from the PUBREC", "another identifier allocated through a handle clone between the QoS 2 publish and the poll that sees its PUBREC"),
+ "C07-2": ("C07", "the QoS 2 duplicate filter also trusts the DUP flag", "a QoS 2 PUBLISH with DUP=1 whose identifier is not awaiting release: answered with PUBREC but never delivered"),
+ "C08-2": ("C08", "a QoS 2 PUBLISH repeated before its PUBREL is discarded without repeating the PUBREC", "the same QoS 2 packet identifier sent twice before PUBREL"),
+ "C09-2": ("C09", "the unreleased identifier is recorded only if the LAST listed subscription identifier could be served", "QoS 2 PUBLISH listing [live, dropped] subscription identifiers, then re-sent before PUBREL: yielded twice to the live stream"),
+ "C10-2": ("C10", "quota refund in the PUBACK/PUBCOMP arms only when an awaiting_ack entry is found", "a QoS 2 publish whose future is dropped before PUBREC: the context finishes the exchange, PUBCOMP finds no entry, the slot leaks"),
+ "C11-2": ("C11", "subscribe() uses the packet identifier it just allocated as subscription identifier", "two subscribe() calls 65535 allocations apart (after the packet-id wrap) get the same subscription identifier"),
+ "C12-2": ("C12", "connect() seeds the server's Maximum Packet Size from the client's own CONNECT maximum_packet_size", "ConnectOpts::maximum_packet_size(K) set, CONNACK without the property, request longer than K: refused although no M was announced"),
+ "C13-2": ("C13", "server DISCONNECT treated as graceful for every reason < 0x80", "a server DISCONNECT with reason 0x04: run() returns Ok(()) instead of Disconnected"),
+ "C14-2": ("C14", "disconnect() maps a cancelled confirmation to Ok(())", "a disconnect() future queued (polled once) but not yet processed, or stuck in the write, when the context is dropped"),
+ "C15-2": ("C15", "on a failed SUBACK hand-over the context removes the stream registration keyed by the SUBACK's PACKET identifier", "a cancelled subscribe whose packet identifier equals the subscription identifier of a later, live subscription (identifiers out of step): that sibling stream ends"),
+ "C16-2": ("C16", "TxPacketStream::write yields after every 8th short write by returning Pending without waking itself", "a writer accepting k bytes per call and a packet longer than 8k bytes under an executor that polls only woken tasks"),
+ "C17-2": ("C17", "session_expired compares the elapsed time with the interval taken as milliseconds", "finite expiry E and E/1000 s < time since disconnection <= E s: a live session is reset, nothing re-sent"),
 }
 for d in sorted(glob.glob('/verif/seeded/*/')):
     name = os.path.basename(d.rstrip('/'))
